@@ -33,6 +33,24 @@ Theorem get_sort_sound : forall I g e idx s' s,
 Proof. exact get_sort_sound_proof. Qed.
 Print Assumptions get_sort_sound.
 
+(* F69: a list with a comment (a leaf whose text starts with ';') among its children has no sort *)
+Theorem comment_operand_has_no_sort : forall I idx e,
+  has_comment_operand e = true -> Smtlib.get_sort I idx e = None.
+Proof. exact comment_operand_has_no_sort_proof. Qed.
+Print Assumptions comment_operand_has_no_sort.
+
+(* p : Bool, b, c : Int in the lookup table: (ite ; c<LF> p b c) has no sort, (ite p b c) has sort Int;
+   the same one level down, below an ite whose sort is the sort of that operand *)
+Example ite_comment_has_no_sort :
+  let I := mk_info [(lit "p", Some sBool); (lit "b", Some sInt); (lit "c", Some sInt)] [] in
+  let lf := fun s => L (lit s) in
+  Smtlib.get_sort I false (T [lf "ite"; lf "; c"; lf "p"; lf "b"; lf "c"]) = None /\
+  Smtlib.get_sort I false (T [lf "ite"; lf "p"; lf "b"; lf "c"]) = Some sInt /\
+  Smtlib.get_sort I false (T [lf "ite"; lf "p"; T [lf "ite"; lf "; c"; lf "p"; lf "b"; lf "c"]; lf "c"]) = None /\
+  Smtlib.get_sort I false (T [lf "ite"; lf "p"; T [lf "ite"; lf "p"; lf "b"; lf "c"]; lf "c"]) = Some sInt.
+Proof. exact ex_ite_comment. Qed.
+Print Assumptions ite_comment_has_no_sort.
+
 (* W3 *)
 Theorem sort_unknown_or_actual : forall I g e idx s,
   lookup_agrees I g -> consts_unbound g -> ops_unbound g -> sorts_canon I -> cons_agree I g ->
@@ -94,3 +112,23 @@ Example type_of_example :
   type_of (mk_env [(lit "x", sBV 4)] [] []) (T [T [L (lit "_"); L (lit "extract"); L (lit "2"); L (lit "1")]; L (lit "x")]) = Some (sBV 2).
 Proof. vm_compute. reflexivity. Qed.
 Print Assumptions type_of_example.
+
+(* ---- the CONSEQUENCE clause of the property as theorems (Props/C16Conseq.v): Model/Defaults.v models
+   get_default_constants and get_variables_with_sort (former oracle arguments of the mutator models), and the replacements
+   of Constants, ReplaceByVariable and IntroduceFreshVariable 'of the same sort' are well-sorted for Spec/Typing.type_of *)
+From DD Require Import Props.C16Conseq.
+Theorem c16_default_constants_typed : ltac:(let t := type of default_constants_typed in exact t).
+Proof. exact default_constants_typed. Qed.
+Print Assumptions c16_default_constants_typed.
+Theorem c16_variables_with_sort_typed : ltac:(let t := type of variables_with_sort_typed in exact t).
+Proof. exact variables_with_sort_typed. Qed.
+Print Assumptions c16_variables_with_sort_typed.
+Theorem c16_constants_replacement_well_sorted : ltac:(let t := type of constants_replacement_well_sorted in exact t).
+Proof. exact constants_replacement_well_sorted. Qed.
+Print Assumptions c16_constants_replacement_well_sorted.
+Theorem c16_replace_by_variable_well_sorted : ltac:(let t := type of replace_by_variable_well_sorted in exact t).
+Proof. exact replace_by_variable_well_sorted. Qed.
+Print Assumptions c16_replace_by_variable_well_sorted.
+Theorem c16_fresh_variable_well_sorted : ltac:(let t := type of fresh_variable_well_sorted in exact t).
+Proof. exact fresh_variable_well_sorted. Qed.
+Print Assumptions c16_fresh_variable_well_sorted.
